@@ -3,7 +3,7 @@
    tree (see the model files). *)
 From Coq Require Import ZArith List Bool.
 From Common Require Import Res Str.
-From Untrusted Require Import Base Playlists Unwrap Tags Proofs_Playlists Proofs_Unwrap Proofs_Tags.
+From Untrusted Require Import Base Playlists Download Unwrap Tags Proofs_Playlists Proofs_Download Proofs_Unwrap Proofs_Tags.
 Import ListNotations.
 Open Scope Z_scope.
 
@@ -125,6 +125,34 @@ Theorem C20_wellformed_nonvacuous :
       /\ no_header true ex_o (render_urilist [ex_l1])).
 Proof. exact (conj ex_safe_lines (conj ex_m3u_runs ex_urilist_hyps)). Qed.
 Print Assumptions C20_wellformed_nonvacuous.
+
+(* http.download re-checks its deadline after every chunk: for every clock, every timeout
+   and every body (finite or endless), the check passed after each chunk but the last one
+   read, so the time spent before the last chunk started is within the timeout *)
+Theorem C20_download_deadline_every_chunk :
+  forall clock timeout_ms more fuel,
+    let n := snd (chunks clock timeout_ms more fuel O) in
+    (forall i, (1 <= i < n)%nat -> late clock timeout_ms i = false)
+    /\ (0 <= timeout_ms -> (1 <= n)%nat -> 1000 * (clock (n - 1)%nat - clock O) <= timeout_ms).
+Proof. exact download_deadline_every_chunk_lemma. Qed.
+Print Assumptions C20_download_deadline_every_chunk.
+
+(* ... and once a reading j is beyond the deadline no more than j chunks are read and the
+   loop has ended (fuel j is enough), even for an endless body: at most one chunk is read
+   after the deadline passed *)
+Theorem C20_download_bounded :
+  forall clock timeout_ms more fuel j,
+    late clock timeout_ms j = true -> (1 <= j <= fuel)%nat ->
+    fst (chunks clock timeout_ms more fuel O) <> DlOutOfFuel
+    /\ (snd (chunks clock timeout_ms more fuel O) <= j)%nat.
+Proof. exact download_bounded_lemma. Qed.
+Print Assumptions C20_download_bounded.
+
+Theorem C20_download_nonvacuous :
+  chunks (fun i => 250 * Z.of_nat i) 1000000 (fun _ => true) 100 O = (DlSlow, 5%nat)
+  /\ late (fun i => 250 * Z.of_nat i) 1000000 5 = true.
+Proof. exact trickle_example. Qed.
+Print Assumptions C20_download_nonvacuous.
 
 (* T3 unwrap_terminates: for every graph (scan, get, join oracles), clock and timeout,
    and every finite set of URIs closed under the walk and containing the start *)
